@@ -29,8 +29,10 @@ def field_of(code, mode, rank, name, lawful=False):
     both = code == 'x'      # `ignore` and `method` on one field: ignored
     if both:
         code = 'i'
-    ty = {'p': 'u8', 'n': 'Nan', 'i': 'u8', 'm': 'u8'}[code]
+    ty = {'p': 'u8', 'n': 'Nan', 'i': 'u8', 'm': 'u8', 'f': 'u8'}[code]
     p = {}
+    if code == 'f':
+        p['ignore'] = False      # explicitly not ignored
     if code == 'i':
         p['ignore'] = True
     if both:
@@ -286,6 +288,12 @@ def gen(tier, seed):
             if m is not None:
                 mods.append(m)
                 n += 1
+    for k, (fl, r, mode) in enumerate([(['f', 'p', 'i'], [None, None, None], 'pord'), (['p', 'f'], [7, -3], 'both_ord'), (['f', 'f', 'm'], [None, 0, None], 'ordonly'), (['i', 'f'], [None, None], 'both_pord')]):
+        shape, ranks = place(fl, r, k + 2)
+        m = emit(f'm{n:04d}', f'{S.shape_id(shape)}/ranks={rid(r)}/{mode}/explicitly not ignored', shape, ranks, mode, sp=Spelling(force={'notignoreform': k % 3, 'ignorefalse': k % 2}))
+        if m is not None:
+            mods.append(m)
+            n += 1
     for k, (fl, mode) in enumerate([(['p', 'x', 'p'], 'pord'), (['x', 'p'], 'both_ord'), (['m', 'x', 'p'], 'ordonly'), (['p', 'x'], 'both_pord'), (['x', 'n', 'p'], 'pord')]):
         shape, ranks = place(fl, [None] * len(fl), k + 1)
         m = emit(f'm{n:04d}', f'{S.shape_id(shape)}/ranks=default/{mode}/ignore+method on one field', shape, ranks, mode)
